@@ -308,6 +308,8 @@ class CallMixin(object):
             self.old_env = old_snapshot
             for (label, ir, txt) in c.ensures_:
                 self.assume(self.spec_truth(ir))
+            for (label, ir, txt) in c.defines_:
+                self.assume(self.spec_truth(ir))
             for hook in c.opts.get('post_hooks', []):
                 hook(self, fr, result)
             self.assumed_contracts.add(c.fid)
